@@ -51,11 +51,21 @@ pub fn cfg_for(index: usize, rng: &mut Prng) -> Cfg {
     Cfg { strat, pred, backup_ok, pred_first, listener: pred != 0 && rng.chance(0.5), reqs }
 }
 
-fn map_err(e: &FallbackError<PErr>) -> Outcome {
+fn map_one(e: &FallbackError<PErr>) -> Outcome {
     match e {
         FallbackError::Inner(p) => Outcome::inner(p),
         FallbackError::FallbackFailed(p) => Outcome::layer_with("FallbackFailed", p),
     }
+}
+
+/// What the caller sees — directly and through a clone of the error (shared futures, coalescing
+/// and retry policies hand out clones): both must be the same thing.
+fn map_err(e: &FallbackError<PErr>) -> Outcome {
+    let (direct, cloned) = (map_one(e), map_one(&e.clone()));
+    if direct != cloned {
+        return Outcome::layer(format!("a clone of the error differs: {} vs {}", direct.short(), cloned.short()));
+    }
+    direct
 }
 
 const VALUE: Resp = Resp { serial: 900_001, req_id: 0, payload: 42, src: 10 };
